@@ -27,7 +27,7 @@ MANIFEST = dict(
     ref='3/C06')
 
 ALPHA = ['a', 'b', 'c', ' ', ' ', '\t', ' ', '　']
-MODES = ['aligned', 'diffuse', 'short', 'absent', 'legacy', 'nowindow', 'tight']
+MODES = ['aligned', 'diffuse', 'short', 'absent', 'legacy', 'nowindow', 'tight', 'exact']
 MINCONF = [0.0, 0.5]
 BASELINES = ['straight2', 'slanted4', 'speck']
 AR = ['ب', 'ا', 'x', '1', ' ']
@@ -155,6 +155,19 @@ def make_logits(text, mode, charset):
         for t, s in enumerate(rows):
             M[t, s] = 6.0
         M += np.linspace(0.01, 0.02, M.size).reshape(M.shape)
+    elif mode == 'exact':
+        # exactly one frame per character and nothing else (what a transformer-style recogniser stores); a blank only between equal labels
+        rows, prev = [], None
+        for l in labels:
+            if l == prev:
+                rows.append(blank)
+            rows.append(l)
+            prev = l
+        pad = 0
+        M = np.full((len(rows), C), -6.0)
+        for t, s in enumerate(rows):
+            M[t, s] = 6.0
+        M += np.linspace(0.01, 0.02, M.size).reshape(M.shape)
     elif mode == 'tight':
         # one frame per character, a blank only where CTC needs one (between equal labels), then trailing blanks; no padding
         rows, prev = [], None
@@ -197,8 +210,22 @@ def make_line(lid, text, mode, y=50, baseline='straight2', charset=CHARSET, x0=2
     if baseline == 'slanted4':
         poly = poly + np.asarray([0, 16])
     logits, chars, coords = make_logits(text or '', mode, charset) if text else (None, None, None)
-    return TextLine(id=lid, baseline=bl, polygon=poly, heights=[20, 10], transcription=text, logits=logits,
-                    characters=chars, logit_coords=coords)
+    tl = TextLine(id=lid, baseline=bl, polygon=poly, heights=[20, 10], transcription=text, logits=logits,
+                  characters=chars, logit_coords=coords)
+    tl._verif_mode = mode
+    return tl
+
+
+PEAKY = ('aligned', 'nowindow', 'tight', 'exact')      # every frame puts 1 - 1e-4 or more on one class: the line confidence is > 0.99 by definition
+
+
+def confidence_class_ok(line):
+    """the confidence the export stores on a line comes from the line's CURRENT posteriors: > 0.99 for the peaky modes, <= 0.5 for
+    diffuse posteriors (near-uniform) and for lines the export cannot align (fallback: 0)"""
+    mode, c = getattr(line, '_verif_mode', None), line.transcription_confidence
+    if mode is None or c is None:
+        return True
+    return c > 0.99 if mode in PEAKY else c <= 0.5
 
 
 def make_page(regions):
@@ -269,6 +296,10 @@ def check_export(page, minconf, ctx, K, desc, sub, frac=False):
             if not t or t.strip() == '':
                 continue
             conf = l.transcription_confidence
+            if not confidence_class_ok(l):
+                ctx.violation('only-lines-below-the-requested-confidence-are-dropped', f'{K}/line-confidence-not-from-its-posteriors',
+                              f'{desc}: line {l.id} (logit mode {l._verif_mode}) carries confidence {conf} after the export', sub)
+                return None
             dropped = conf is not None and conf < minconf
             if not dropped:
                 want.append(expected_words(t))
@@ -372,7 +403,26 @@ def check_text(case, ctx):
             continue
         ws = text.split()
         ctx.outcome((len(ws), mode))
-        if len(ws) >= 2 and mode in ('aligned', 'diffuse', 'nowindow', 'tight'):
+        # history on one page object: exported once without logits (or with them), then logits attached (removed), exported again with
+        # a confidence filter - the second export must be that of the page as it is now
+        if ws and bi == 0 and ci == 1 and mode in PEAKY + ('absent',):
+            l2 = make_line('r1-l001', text, 'absent' if mode in PEAKY else 'aligned', baseline=bshape)
+            page2 = make_page([('r1', REGION_BOXES[1], [make_line('r1-l000', 'b a', 'aligned', y=120), l2])])
+            try:
+                page2.to_altoxml_string(min_line_confidence=0)
+                page2.to_altoxml_string(min_line_confidence=0.5)
+            except Exception:  # noqa  (reported by the plain export of this mode)
+                continue
+            ctx.executed(2)
+            if mode in PEAKY:
+                l2.logits, l2.characters, l2.logit_coords = make_logits(text, mode, CHARSET)
+            else:
+                l2.logits, l2.characters, l2.logit_coords = None, None, None
+            l2._verif_mode = mode
+            check_export(page2, minconf, ctx, f'{ID}/{mode}/after-earlier-exports', desc + ' (page exported before its logits were ' +
+                         ('attached' if mode in PEAKY else 'removed') + ')', sub)
+            ctx.tag('export-history-on-one-page')
+        if len(ws) >= 2 and mode in ('aligned', 'diffuse', 'nowindow', 'tight', 'exact'):
             ctx.nontrivial((text, mode), 'multi-word-aligned')
         if any(ch in text for ch in ALPHA[4:]) and ws:
             ctx.tag('non-ascii-or-tab-white-space')
@@ -517,9 +567,9 @@ def describe(tier):
         'alphabets': {'text': [repr(c) for c in ALPHA], 'modes': MODES, 'min_conf': MINCONF, 'baselines': BASELINES,
                       'arabic': AR, 'order': ORD, 'region_boxes': REGION_BOXES, 'line_texts': [repr(t) for t in LINE_TEXTS]},
         'assumptions': ['print space compared exactly for integer region coordinates, within 2 px for fractional ones (values are truncated separately)',
-                        'a line counts as dropped iff the confidence the export stored on it is below min_line_confidence'],
+                        'a line counts as dropped iff the confidence the export stored on it is below min_line_confidence; that confidence must be > 0.99 for one-hot-like posteriors and <= 0.5 for near-uniform or unalignable ones'],
         'min_nontrivial': 100,
-        'required_tags': ['lines-with-more-than-1000-frames', 'mixed-script-pages', 'multi-word-aligned', 'two-region-pages', 'arabic-line-exported', 'order-conversion-reorders',
+        'required_tags': ['export-history-on-one-page', 'lines-with-more-than-1000-frames', 'mixed-script-pages', 'multi-word-aligned', 'two-region-pages', 'arabic-line-exported', 'order-conversion-reorders',
                           'non-ascii-or-tab-white-space', 'fallback-branch', 'line-dropped-by-confidence-filter',
                           'print-space-not-reaching-page-edge'],
     }
